@@ -45,6 +45,7 @@ CONSTANTS
   VerifierEditKinds,       \* subset of {"sel","wire","pirow","pimove","rows","same","label"}
   ProofEditKinds,          \* subset of {"mutate","splice","degenerate"}
   SpliceSets,              \* set of field subsets (of 0..25) to splice
+  SpliceProgs,             \* programs for which a second proof is made
   ViolationKinds,          \* subset of {"set","copy"}: forced-prover adversary
   ViolationPick(_, _),     \* prog, witness index -> BOOLEAN (sampling of "set")
   MaxEdits,                \* bound on the number of edit actions per behaviour
@@ -56,7 +57,7 @@ VARIABLES
   prog,       \* the composed program
   keys,       \* what Compile produced: [vk, pirows, label, cap] (prover side)
   verifier,   \* the verifier object in use: [vk, pirows, label, cap]
-  rt,         \* set of round trips done
+  rt,         \* sequence of round trips done
   proof,      \* [vk, pirows, label, ver, pis, intact, second]
   pisNow,     \* the public-input vector that will be handed to verify
   nEdits,
@@ -65,6 +66,8 @@ VARIABLES
 
 vars == <<phase, pp, prog, keys, verifier, rt, proof, pisNow, nEdits, last, hist>>
 view == <<phase, pp, prog, keys, verifier, rt, proof, pisNow, nEdits, last>>
+\* MBT profiles: every behaviour is a scenario, nothing is merged
+viewAll == vars
 
 None == [none |-> TRUE]
 
@@ -461,7 +464,7 @@ Step(s) == /\ last' = s
 
 Init ==
   /\ phase = "init" /\ pp = 0 /\ prog = None /\ keys = None /\ verifier = None
-  /\ rt = {} /\ proof = None /\ pisNow = <<>> /\ nEdits = 0
+  /\ rt = <<>> /\ proof = None /\ pisNow = <<>> /\ nEdits = 0
   /\ last = [a |-> "Init"] /\ hist = <<>>
 
 Setup(d) ==
@@ -494,8 +497,8 @@ Compile(route, label) ==
 
 RoundTrip(which) ==
   /\ phase = "compiled"
-  /\ which \in RoundTrips(pp, prog) /\ which \notin rt
-  /\ rt' = rt \cup {which}
+  /\ which \in RoundTrips(pp, prog) /\ which \notin Range(rt)
+  /\ rt' = Append(rt, which)
   /\ Step(IF which = "prover"
           THEN [a |-> "RoundTripProver",
                 pred |-> [res |-> "ok", same |-> TRUE, prover |-> ProverId(keys)]]
@@ -505,7 +508,7 @@ RoundTrip(which) ==
 
 Prove(ver) ==
   /\ phase = "compiled"
-  /\ RoundTrips(pp, prog) \subseteq rt          \* round trips first (fixed order)
+  /\ RoundTrips(pp, prog) \subseteq Range(rt)          \* round trips first (fixed order)
   /\ LET out == ProveOutcome(ver, prog)
          pis == PIValsOf(prog)
      IN /\ Step([a |-> "Prove", version |-> ver, seed |-> 1, slot |-> "p",
@@ -521,7 +524,7 @@ Prove(ver) ==
 \* the adversary runs the real proving algorithm on a violating assignment
 ForceProve(x) ==
   /\ phase = "compiled"
-  /\ RoundTrips(pp, prog) \subseteq rt
+  /\ RoundTrips(pp, prog) \subseteq Range(rt)
   /\ \E ver \in ProveVersions(pp, prog) \ {1} :
        LET pis == PIValsOf(prog)
            common == [a |-> "ForceProve", version |-> ver, seed |-> 1, slot |-> "p",
@@ -540,14 +543,17 @@ ForceProve(x) ==
 
 \* a second proof of the same statement under other randomness (slot "q")
 ProveSecond ==
-  /\ phase = "proved" /\ ~proof.second /\ nEdits = 0
-  /\ "splice" \in ProofEditKinds
+  /\ phase = "proved" /\ ~proof.second /\ nEdits = 0 /\ proof.intact
+  /\ "splice" \in ProofEditKinds /\ prog \in SpliceProgs
   /\ proof' = [proof EXCEPT !.second = TRUE]
   /\ Step([a |-> "Prove", version |-> proof.ver, seed |-> 2, slot |-> "q",
            pred |-> [res |-> "ok", pis |-> proof.pis]])
   /\ UNCHANGED <<phase, pp, prog, keys, verifier, rt, pisNow, nEdits>>
 
-CanEdit == phase = "proved" /\ nEdits < MaxEdits
+AfterSecond == last.a = "Prove" /\ last.slot = "q"
+\* edits apply to an honest first proof (a forced proof goes straight to verify)
+CanEdit == /\ phase = "proved" /\ nEdits < MaxEdits
+           /\ last.a # "ForceProve" /\ ~AfterSecond
 
 SetPI(e) ==
   /\ CanEdit
@@ -567,7 +573,7 @@ SwapVerifier(kind, p, label) ==
   /\ UNCHANGED <<phase, pp, prog, keys, rt, proof, pisNow>>
 
 MutateProof(m) ==
-  /\ CanEdit
+  /\ CanEdit /\ ~proof.second
   /\ proof' = [proof EXCEPT !.intact = FALSE] /\ nEdits' = nEdits + 1
   /\ Step([a |-> "MutateProof", kind |-> m.kind, i |-> m.i, j |-> m.j,
            pred |-> [res |-> "ok", changed |-> TRUE]])
@@ -577,7 +583,7 @@ MutateProof(m) ==
 \* proof: it is one of the two valid proofs iff F is empty or everything
 Splice(F) ==
   /\ CanEdit /\ proof.second
-  /\ proof' = [proof EXCEPT !.intact = @ /\ (F = {} \/ F = AllFields)]
+  /\ proof' = [proof EXCEPT !.intact = IF F = AllFields THEN TRUE ELSE IF F = {} THEN @ ELSE FALSE]
   /\ nEdits' = nEdits + 1
   /\ Step([a |-> "Splice", from |-> "q",
            fields |-> SetToSortSeq(F, <),
@@ -585,23 +591,26 @@ Splice(F) ==
   /\ UNCHANGED <<phase, pp, prog, keys, verifier, rt, pisNow>>
 
 Degenerate(kind) ==
-  /\ CanEdit
+  /\ CanEdit /\ ~proof.second
   /\ proof' = [proof EXCEPT !.intact = FALSE] /\ nEdits' = nEdits + 1
   /\ Step([a |-> "Degenerate", kind |-> kind, pred |-> [res |-> "ok"]])
   /\ UNCHANGED <<phase, pp, prog, keys, verifier, rt, pisNow>>
 
 \* after a second proof the first one is made current again
 UseFirst ==
-  /\ phase = "proved" /\ proof.second /\ last.a = "Prove" /\ last.slot = "q"
+  /\ phase = "proved" /\ proof.second /\ AfterSecond
   /\ Step([a |-> "UseProof", slot |-> "p", pred |-> [res |-> "ok"]])
   /\ UNCHANGED <<phase, pp, prog, keys, verifier, rt, proof, pisNow, nEdits>>
 
 Verify(ver) ==
   /\ phase = "proved"
-  /\ ~(last.a = "Prove" /\ "slot" \in DOMAIN last /\ last.slot = "q")
+  /\ ~AfterSecond
   /\ phase' = "done"
-  /\ Step([a |-> "Verify", version |-> ver,
-           pred |-> [res |-> VerifyOutcome(verifier, ver, pisNow, proof)]])
+  /\ LET out == VerifyOutcome(verifier, ver, pisNow, proof)
+     IN Step([a |-> "Verify", version |-> ver,
+              pred |-> [res |-> out,
+                        \* accepted although the verifier's description differs
+                        corner |-> out = "ok" /\ ~DescEq(verifier, proof)]])
   /\ UNCHANGED <<pp, prog, keys, verifier, rt, proof, pisNow, nEdits>>
 
 Next ==
